@@ -50,6 +50,7 @@ type compiler struct {
 	label       int
 	list        []string
 	waitStyleOf map[int]int
+	fold        map[int]int
 }
 
 func (c *compiler) note(format string, args ...any) {
@@ -68,6 +69,13 @@ func (c *compiler) use(r int) kasm.Operand {
 	if seq, ok := c.pending[r]; ok {
 		c.waitFor(seq, c.waitStyleOf[r])
 		delete(c.pending, r)
+	}
+	if n := c.fold[r]; n > 1 {
+		// a wide load left its dwords in consecutive registers: fold them into the first
+		for j := 1; j < n; j++ {
+			c.a.VOP2(kasm.OpVXorB32, kasm.V(c.reg[r]), kasm.V(c.reg[r]+j), kasm.V(c.reg[r]))
+		}
+		delete(c.fold, r)
 	}
 	return kasm.V(c.reg[r])
 }
@@ -175,6 +183,7 @@ func (p *Program) Compile() (*Compiled, error) {
 	c := &compiler{p: p, a: kasm.New(), pending: map[int]int{}, nextV: vFirstValue}
 	c.a.GFX9 = p.GFX9
 	c.waitStyleOf = map[int]int{}
+	c.fold = map[int]int{}
 	a := c.a
 	g := p.Geo
 	usesLDS := false
@@ -277,9 +286,20 @@ func (p *Program) Compile() (*Compiled, error) {
 		case "load":
 			idx := c.use(o.A)
 			r, dst := c.newValue()
-			a.VOP2(kasm.OpVAndB32, kasm.V(vT1), imm(uint32(1)<<p.InLog2[o.K]-1), idx)
+			flatOp := kasm.OpFlatLoadDword
+			if o.N > 1 {
+				c.nextV += o.N - 1 // the value owns N consecutive registers
+				c.fold[r] = o.N
+				flatOp = map[int]int{2: kasm.OpFlatLoadDwordx2, 4: kasm.OpFlatLoadDwordx4}[o.N]
+				a.VOP2(kasm.OpVAndB32, kasm.V(vT1), imm(uint32(1)<<(p.InLog2[o.K]-1)-1), idx)
+				if o.Imm != 0 {
+					a.VOP2(kasm.OpVAddU32, kasm.V(vT1), imm(o.Imm), kasm.V(vT1))
+				}
+			} else {
+				a.VOP2(kasm.OpVAndB32, kasm.V(vT1), imm(uint32(1)<<p.InLog2[o.K]-1), idx)
+			}
 			ad := c.address(sIn0+2*o.K, kasm.V(vT1))
-			a.FLAT(kasm.OpFlatLoadDword, dst, ad, kasm.None)
+			a.FLAT(flatOp, dst, ad, kasm.None)
 			c.issued = append(c.issued, false)
 			c.pending[r] = len(c.issued) - 1
 			c.waitStyleOf[r] = o.Wait
@@ -364,6 +384,9 @@ func (p *Program) Compile() (*Compiled, error) {
 	code, err := a.Bytes()
 	if err != nil {
 		return nil, err
+	}
+	if c.nextV > 252 {
+		return nil, fmt.Errorf("program needs %d vector registers", c.nextV)
 	}
 	nv := (c.nextV+3)/4*4 + p.PadVGPR/4*4
 	if nv > 256 {
